@@ -410,6 +410,16 @@ func c02SingleFlight(c *Ctx) {
 	}
 	c.Check(ConstInt(0)(mk.Size), rule, fn, "bridge-unbuffered", mk, "bridge channel has constant capacity 0",
 		"bridge channel is buffered: several produce sets can be queued to the broker while one is in flight, responses and retries interleave", nil)
+	// the channel the bridge answers on: unbuffered too — the bridge stays in its send until the run loop has taken the
+	// response, so no further set can be handed to it while a response is unhandled
+	for _, s := range Info(fn).Find(StoreTo(nil, "brokerProducer.responses")) {
+		if rm := resolveChan(strip(s.In.(*ssa.Store).Val)); rm != nil {
+			c.Check(ConstInt(0)(rm.Size), rule, fn, "responses-unbuffered", rm, "responses channel has constant capacity 0",
+				"the responses channel is buffered: the bridge goroutine leaves its response in the channel and takes the next produce set while the run loop has not handled the response yet — the buffer holding later messages of a partition is sent before handleSuccess marks the partition as retrying; they are appended ahead of the bounced earlier ones", nil)
+		} else {
+			c.Unresolved(rule, "channel stored in brokerProducer.responses")
+		}
+	}
 	var cell ssa.Value
 	if u, ok := bridge.(*ssa.UnOp); ok {
 		cell = u.X
